@@ -152,7 +152,7 @@ def run_sharded(cmd, lines, tag, timeout=900):
         fout = os.path.join(WORK, "%s_out_%d.txt" % (tag, i))
         with open(fin, "w") as f:
             f.write("\n".join(sh_lines) + "\n")
-        procs.append((subprocess.Popen(cmd, shell=True, stdin=open(fin), stdout=open(fout, "w"),
+        procs.append((subprocess.Popen("exec " + cmd, shell=True, stdin=open(fin), stdout=open(fout, "w"),
                                        stderr=subprocess.DEVNULL, env=ENV, cwd=VERIF), fout, len(sh_lines)))
     outs = []
     for p, fout, cnt in procs:
@@ -160,6 +160,7 @@ def run_sharded(cmd, lines, tag, timeout=900):
             p.wait(timeout=timeout)
         except subprocess.TimeoutExpired:
             p.kill()
+            p.wait()
         got = open(fout).read().split("\n")
         if got and got[-1] == "":
             got.pop()
@@ -173,7 +174,7 @@ def run_sharded(cmd, lines, tag, timeout=900):
             if not rest:
                 break
             try:
-                r = subprocess.run(cmd, shell=True, input="\n".join(rest) + "\n", stdout=subprocess.PIPE,
+                r = subprocess.run("exec " + cmd, shell=True, input="\n".join(rest) + "\n", stdout=subprocess.PIPE,
                                    stderr=subprocess.DEVNULL, text=True, env=ENV, cwd=VERIF, timeout=timeout)
                 more = r.stdout.split("\n")
             except subprocess.TimeoutExpired:
@@ -264,13 +265,25 @@ def shrink(P, script, fails):
     return P.join(hdr, cur)
 
 
+def model_script(P, script, impl_out):
+    """Two-pass properties: the model's input is the script plus oracle values (random draws, float results)
+    that only the implementation's run can supply; P.model_input(script, impl_out) appends them."""
+    if hasattr(P, "model_input") and impl_out is not None:
+        try:
+            return P.model_input(script, impl_out)
+        except Exception:
+            return script
+    return script
+
+
 def run_one(P, script):
     line = to_line(script)
-    pi = subprocess.run(impl_cmd(P), shell=True, input=line + "\n", stdout=subprocess.PIPE,
-                        stderr=subprocess.DEVNULL, text=True, env=ENV, timeout=120)
-    pm = subprocess.run(model_cmd(P), shell=True, input=line + "\n", stdout=subprocess.PIPE,
+    pi = subprocess.run("exec " + impl_cmd(P), shell=True, input=line + "\n", stdout=subprocess.PIPE,
                         stderr=subprocess.DEVNULL, text=True, env=ENV, timeout=120)
     io = pi.stdout.strip().split("\n")[0] if pi.stdout.strip() else "CRASH"
+    mline = to_line(model_script(P, script, parse_out(io)))
+    pm = subprocess.run("exec " + model_cmd(P), shell=True, input=mline + "\n", stdout=subprocess.PIPE,
+                        stderr=subprocess.DEVNULL, text=True, env=ENV, timeout=120)
     mo = pm.stdout.strip().split("\n")[0] if pm.stdout.strip() else "CRASH"
     return parse_out(io), parse_out(mo)
 
@@ -375,7 +388,8 @@ def main():
             cov["exhaustive_cases"] = len(ex)
         lines = [to_line(s) for s in scripts]
         impl_raw = run_sharded(impl_cmd(P), lines, "impl_" + pid)
-        model_raw = run_sharded(model_cmd(P), lines, "model_" + pid)
+        mscripts = [model_script(P, sc, parse_out(a)) for sc, a in zip(scripts, impl_raw)]
+        model_raw = run_sharded(model_cmd(P), [to_line(x) for x in mscripts], "model_" + pid)
         seen = set()
         for s, a, b in zip(scripts, impl_raw, model_raw):
             io, mo = parse_out(a), parse_out(b)
@@ -410,8 +424,8 @@ def main():
             idx = list(range(len(scripts)))
             rng2 = random.Random(seed + 1)
             rng2.shuffle(idx)
-            take = [j for j in idx if model_outs[j] is not None and len(scripts[j]) <= 400][:getattr(P, "XCHECK_N", 50)]
-            xcheck_n, xcheck_err = coq_crosscheck(P, [scripts[j] for j in take], [model_outs[j] for j in take])
+            take = [j for j in idx if model_outs[j] is not None and len(mscripts[j]) <= 400][:getattr(P, "XCHECK_N", 50)]
+            xcheck_n, xcheck_err = coq_crosscheck(P, [mscripts[j] for j in take], [model_outs[j] for j in take])
             if xcheck_err:
                 proof_problems.append(xcheck_err)
 
